@@ -29,10 +29,12 @@ import (
 	"github.com/klauspost/compress/zstd"
 	"github.com/restic/restic/internal/backend"
 	"github.com/restic/restic/internal/data"
+	"github.com/restic/restic/internal/global"
 	"github.com/restic/restic/internal/repository"
 	"github.com/restic/restic/internal/repository/crypto"
 	"github.com/restic/restic/internal/repository/pack"
 	"github.com/restic/restic/internal/restic"
+	"github.com/restic/restic/internal/ui/progress"
 	"github.com/restic/restic/internal/verifkit/vbe"
 )
 
@@ -338,6 +340,21 @@ func vReachableC10(e *vEnv) (map[string]bool, error) {
 	return reach, err
 }
 
+// vWithRepoRWC10 opens the repository for writing (append lock; e.WithRepo opens it in
+// dry-run mode, which silently discards every write) and calls fn.
+func vWithRepoRWC10(e *vEnv, fn func(ctx context.Context, repo *repository.Repository) error) error {
+	_, err := e.call(e.gopts, func(ctx context.Context, gopts global.Options) error {
+		printer := progress.NewTerminalPrinter(false, 0, gopts.Term)
+		ctx, repo, unlock, err := openWithAppendLock(ctx, gopts, false, printer)
+		if err != nil {
+			return err
+		}
+		defer unlock()
+		return fn(ctx, repo)
+	})
+	return err
+}
+
 // ---------------------------------------------------------------------------
 // builders
 
@@ -377,7 +394,7 @@ func vSynthNodesC10(seeds []uint64, prefix string) []*data.Node {
 // vSaveSynthC10 writes the snapshots through the repository API, one upload session per
 // snapshot (so every snapshot gets its own small data and tree packs).
 func vSaveSynthC10(e *vEnv, snaps []vSynthSnapC10) error {
-	return e.WithRepo(func(ctx context.Context, repo *repository.Repository) error {
+	return vWithRepoRWC10(e, func(ctx context.Context, repo *repository.Repository) error {
 		if err := repo.LoadIndex(ctx, restic.NoopTerminalCounterFactory); err != nil {
 			return err
 		}
@@ -535,7 +552,7 @@ func vCraftPackC10(s *vbe.Store, key *crypto.Key, copies []vEntC10, fresh []vFre
 
 // vSaveSnapshotFileC10 stores a snapshot file for the given root tree.
 func vSaveSnapshotFileC10(e *vEnv, root restic.ID, tag string) error {
-	return e.WithRepo(func(ctx context.Context, repo *repository.Repository) error {
+	return vWithRepoRWC10(e, func(ctx context.Context, repo *repository.Repository) error {
 		sn, err := data.NewSnapshot([]string{"/synth/" + tag}, []string{tag}, "vhost", time.Unix(1700000001, 0).UTC())
 		if err != nil {
 			return err
